@@ -287,8 +287,41 @@ def install_dates(I, cls):
     dt_date.ns["__new_model__"] = ctor(dt_date)
     p_date.ns["__new_model__"] = ctor(p_date)
 
+    def _concrete_ordinal(e):
+        """value of an ordinal expression whose only non-arithmetic parts are ORD3 applications to numerals, else None"""
+        from . import calmodel
+        try:
+            e = z3.simplify(e) if z3.is_expr(e) else e
+            subs, work, seen = [], [e], set()
+            while work:
+                x = work.pop()
+                if not z3.is_expr(x) or x.get_id() in seen:
+                    continue
+                seen.add(x.get_id())
+                if z3.is_app(x) and x.decl().name() == "ORD3":
+                    args = [z3.simplify(x.arg(i)) for i in range(3)]
+                    if not all(z3.is_int_value(a) for a in args):
+                        return None
+                    yy, mm, dd = (a.as_long() for a in args)
+                    if not calmodel.valid(yy, mm, dd):
+                        return None
+                    subs.append((x, z3.IntVal(calmodel.ordinal(yy, mm, dd))))
+                    continue
+                work.extend(x.children())
+            v = z3.simplify(z3.substitute(e, *subs)) if subs else e
+            return v.as_long() if z3.is_int_value(v) else None
+        except Exception:
+            return None
+
     def fresh_date(ctx, c, ord_expr, base="dt"):
         """fresh valid triple whose ordinal equals ord_expr (assumption: stays within years 1..9999)"""
+        conc = _concrete_ordinal(ord_expr)
+        if conc is not None:
+            # a concrete day number: the date itself (closed form evaluated in Python, pyvc/calmodel.py), no fresh triple
+            from . import calmodel
+            yy, mm, dd = calmodel.civil(conc)
+            if 1 <= yy <= 9999:
+                return mk_date(c, z3.IntVal(yy), z3.IntVal(mm), z3.IntVal(dd))
         y, m, d = ctx.fresh_int(base + "_y"), ctx.fresh_int(base + "_m"), ctx.fresh_int(base + "_d")
         ctx.assume(cal.valid(y, m, d))
         ctx.assume(cal.ordinal(y, m, d) == ord_expr)
